@@ -230,9 +230,57 @@ class _Canon:
                     return ast.copy_location(ast.Subscript(value=v, slice=ast.Constant(value=canon.types[t].index(n.attr)), ctx=ast.Load()), n)
                 return n
 
+            def _unrolled(self, n):
+                """elements of a comprehension over a value of a private NamedTuple type (fixed, known length), or None"""
+                if len(n.generators) != 1:
+                    return None
+                g = n.generators[0]
+                if g.ifs or g.is_async or not isinstance(g.target, ast.Name) or not isinstance(g.iter, ast.Name):
+                    return None
+                t = env.get(g.iter.id)
+                if not t:
+                    return None
+                import copy as _copy
+
+                out = []
+                for i in range(len(canon.types[t])):
+                    class S(ast.NodeTransformer):
+                        def visit_Name(self, m):
+                            if m.id == g.target.id and isinstance(m.ctx, ast.Load):
+                                return ast.copy_location(ast.Subscript(value=ast.Name(id=g.iter.id, ctx=ast.Load()), slice=ast.Constant(value=i), ctx=ast.Load()), m)
+                            return m
+
+                    out.append(S().visit(_copy.deepcopy(n.elt)))
+                return out
+
+            def visit_ListComp(self, n):
+                self.generic_visit(n)
+                elts = self._unrolled(n)
+                if elts is None:
+                    return n
+                changed[0] = True
+                return ast.copy_location(ast.List(elts=elts, ctx=ast.Load()), n)
+
             def visit_Call(self, n):
+                # a generator over a NamedTuple value consumed by an eager, order-insensitive-to-laziness builtin
+                if isinstance(n.func, ast.Name) and n.func.id in ("max", "min", "sum", "tuple", "list", "set", "sorted", "len") and len(n.args) == 1 and isinstance(n.args[0], ast.GeneratorExp):
+                    self.generic_visit(n.args[0])
+                    elts = self._unrolled(n.args[0])
+                    if elts is not None:
+                        changed[0] = True
+                        n.args = [ast.copy_location(ast.Tuple(elts=elts, ctx=ast.Load()), n.args[0])]
                 self.generic_visit(n)
                 nm = n.func.id if isinstance(n.func, ast.Name) else None
+                if nm in canon.types and len(n.args) == 1 and isinstance(n.args[0], ast.Starred) and not n.keywords:
+                    # T(*[a, b, c]) / T(*name): the components in order (a wrong length raises TypeError in both readings)
+                    sv = n.args[0].value
+                    k = len(canon.types[nm])
+                    if isinstance(sv, (ast.List, ast.Tuple)) and len(sv.elts) == k and not any(isinstance(e_, ast.Starred) for e_ in sv.elts):
+                        changed[0] = True
+                        return ast.copy_location(ast.Tuple(elts=list(sv.elts), ctx=ast.Load()), n)
+                    if isinstance(sv, ast.Name):
+                        changed[0] = True
+                        return ast.copy_location(ast.Tuple(elts=[ast.Subscript(value=ast.Name(id=sv.id, ctx=ast.Load()), slice=ast.Constant(value=i), ctx=ast.Load()) for i in range(k)], ctx=ast.Load()), n)
                 if nm in canon.types and not any(isinstance(a, ast.Starred) for a in n.args) and not any(k.arg is None for k in n.keywords):
                     fields = canon.types[nm]
                     vals: List[Optional[ast.AST]] = list(n.args) + [None] * (len(fields) - len(n.args))
@@ -247,6 +295,34 @@ class _Canon:
                         return ast.copy_location(ast.Tuple(elts=vals, ctx=ast.Load()), n)
                 return n
 
+        # x = T(*g(..))  ->  tmp = g(..); x = T(*tmp)   (the constructor name is loaded before g is called, which has no effect)
+        lifted = [0]
+
+        def lift(stmts) -> None:
+            i = 0
+            while i < len(stmts):
+                st = stmts[i]
+                v = getattr(st, "value", None) if isinstance(st, (ast.Assign, ast.AnnAssign, ast.Return)) else None
+                if isinstance(v, ast.Call) and isinstance(v.func, ast.Name) and v.func.id in canon.types and len(v.args) == 1 and not v.keywords \
+                        and isinstance(v.args[0], ast.Starred) and isinstance(v.args[0].value, ast.Call):
+                    lifted[0] += 1
+                    tmp = f"fields__n{getattr(st, 'lineno', 0)}_{lifted[0]}"
+                    asg = ast.copy_location(ast.Assign(targets=[ast.Name(id=tmp, ctx=ast.Store())], value=v.args[0].value), st)
+                    v.args[0].value = ast.copy_location(ast.Name(id=tmp, ctx=ast.Load()), v)
+                    ast.fix_missing_locations(asg)
+                    stmts[i:i + 1] = [asg, st]
+                    changed[0] = True
+                    i += 2
+                    continue
+                for fld in ("body", "orelse", "finalbody"):
+                    sub = getattr(st, fld, None)
+                    if isinstance(sub, list) and sub and isinstance(sub[0], ast.stmt) and not isinstance(st, (ast.FunctionDef, ast.AsyncFunctionDef, ast.ClassDef)):
+                        lift(sub)
+                for h in getattr(st, "handlers", []) or []:
+                    lift(h.body)
+                i += 1
+
+        lift(f.node.body)
         T().visit(f.node)
         # a typed local that is only ever indexed is the unpacked tuple:  g = e; .. g[0] .. g[2]  ->  g__0, g__1, g__2 = e; .. g__0 .. g__2
         for name, t in sorted(env.items()):
